@@ -251,6 +251,25 @@ impl ZReorderMap {
             )));
         }
 
+        // Validate the body once: every entry readable and the runs add up to `size`
+        // (next() cannot report errors, so a damaged body must be refused here)
+        self.pos = 16;
+        let mut total: usize = 0;
+        while total < self.size {
+            self.read_entry()?;
+            if self.seq_length == 0 {
+                break;
+            }
+            total = total.checked_add(self.seq_length).ok_or_else(|| {
+                ZiporaError::invalid_data("ZReorderMap: run lengths overflow")
+            })?;
+        }
+        if total != self.size {
+            return Err(ZiporaError::invalid_data(
+                "ZReorderMap: run lengths do not add up to the declared size"
+            ));
+        }
+
         // Reset position
         self.pos = 16;
         self.index = 0;
